@@ -75,6 +75,9 @@ def cases(tier):
     for segs, part in [([1], 1), ([2, 1], 1), ([1, 2, 3], 2), ([3, 3], 3), ([1, 1, 1, 1], 2),
                        ([4, 1, 3], 4), ([5], None), ([2, 5], None)]:
         cs.append(('mux.chop', dict(segs=segs, part=part)))
+    for segs, val in [([8, 8], 0xABCD), ([3, 2, 1], 0b101101), ([1, 4], 0b10110), ([2, 2, 2], 0b011011)]:
+        cs.append(('mux.chop', dict(segs=segs, part=None, const=val)))
+        cs.append(('mux.chop', dict(segs=segs, part=None, const=val, kind='str')))
     cs.append(('mux.wire_struct', dict()))
     # the default object listed explicitly as well (at the first slot of a half / elsewhere); int LUTs whose
     # default value also occurs in the table
@@ -103,7 +106,7 @@ def run(ctx):
                'explicit end (quick tier runs the end=None cases; explicit end in the thorough tier, length / '
                'range / refusal / WF only)')
     combfam.run_comb_family(ctx, 'C14.helpers', cases(ctx.tier), FUNCS,
-                            'helper does not deliver exactly the documented bits')
+                            'helper does not deliver exactly the documented bits', opts=dict(const_twins=3))
     ctx.assume('z3 soundness; spec/netsem.py; sparse_mux/enum_mux without default: unlisted indices are don\'t-cares (precondition)')
     return ctx.finish('other', './check C14', ['z3', 'pyvc', 'spec/netsem.py', 'elab/n2smt.py'],
                       'P: select, w[i] / w[lo:hi], concat, bitfield_update (len, den) contracts for all widths and '
